@@ -151,6 +151,11 @@ class Lit:
                 return Lit(self.repo, m.name, opaque=self.opaque).ev(node)
             if n.id in ('True', 'False', 'None'):
                 return {'True': True, 'False': False, 'None': None}[n.id]
+            if n.id in self.PURE:
+                try:
+                    return self._opaque(n)
+                except NotLiteral:
+                    return self.PURE[n.id]          # a pure builtin used as a value (map(chr, ...), key=len)
             return self._opaque(n)
         if isinstance(n, ast.Tuple):
             return tuple(self._seq(n.elts))
@@ -224,7 +229,7 @@ class Lit:
             if isinstance(n.func, ast.Name) and n.func.id in self.PURE and not n.keywords:
                 return self.PURE[n.func.id](*self._seq(n.args))
             if isinstance(n.func, ast.Attribute) and isinstance(n.func.value, ast.Name) and n.func.value.id == 're' and n.func.value.id not in self.env \
-               and n.func.attr in ('split', 'sub', 'match', 'fullmatch', 'findall', 'search', 'compile', 'escape') and not n.keywords:
+               and n.func.attr in ('split', 'sub', 'match', 'fullmatch', 'findall', 'search', 'compile', 'escape', 'finditer', 'subn') and not n.keywords:
                 import re as _re
                 args = self._seq(n.args)
                 if all(isinstance(a, (str, int)) for a in args):
@@ -261,9 +266,9 @@ class Lit:
                         return Lit(self.repo, self.modname).ev(tree)
                     except ZeroDivisionError:
                         raise ValueError('division by zero')
-            if isinstance(n.func, ast.Attribute) and n.func.attr in ('format', 'join', 'upper', 'lower', 'count', 'items', 'keys', 'values', 'get', 'split', 'strip', 'replace', 'startswith', 'endswith', 'isspace', 'isdigit', 'partition', 'rpartition', 'index', 'find', 'ljust', 'rjust', 'zfill', 'isalpha', 'title', 'lstrip', 'rstrip', 'isalnum', 'isidentifier', 'isupper', 'islower', 'capitalize', 'swapcase', 'center', 'splitlines', 'casefold', 'removeprefix', 'removesuffix', 'rsplit', 'rfind', 'rindex', 'isnumeric', 'isdecimal', 'translate', 'expandtabs', 'encode', 'decode', 'hex'):
+            if isinstance(n.func, ast.Attribute) and n.func.attr in ('format', 'join', 'upper', 'lower', 'count', 'items', 'keys', 'values', 'get', 'split', 'strip', 'replace', 'startswith', 'endswith', 'isspace', 'isdigit', 'partition', 'rpartition', 'index', 'find', 'ljust', 'rjust', 'zfill', 'isalpha', 'title', 'lstrip', 'rstrip', 'isalnum', 'isidentifier', 'isupper', 'islower', 'capitalize', 'swapcase', 'center', 'splitlines', 'casefold', 'removeprefix', 'removesuffix', 'rsplit', 'rfind', 'rindex', 'isnumeric', 'isdecimal', 'translate', 'expandtabs', 'encode', 'decode', 'hex', 'intersection', 'union', 'difference', 'issubset', 'issuperset', 'isdisjoint', 'symmetric_difference'):
                 base = self.ev(n.func.value)
-                if isinstance(base, (str, dict, tuple, list, bytes, bytearray)):
+                if isinstance(base, (str, dict, tuple, list, bytes, bytearray, set, frozenset)):
                     args = self._seq(n.args)
                     kw = self._kw(n.keywords)
                     return getattr(base, n.func.attr)(*args, **kw)
